@@ -7,5 +7,6 @@ register_simp_attr frame
 register_simp_attr safe
 /-- non-interference lemmas -/
 register_simp_attr ni
+register_simp_attr nip
 /-- specifications `∀ s, Pre s → wpE (f args) Post E s` used by the `hoare_go` tactic to step over calls -/
 register_label_attr hspec
